@@ -53,6 +53,20 @@ Vars == [ints  |-> <<I(1), I(2), I(2), I(3)>>,
          neg   |-> <<I(-4)>>]
 Env == [forest |-> Forest, sch |-> Sch, vars |-> Vars, kinds |-> Kinds]
 
+(* The OTHER inputs: every compiled program is evaluated a second time, reused, on the twin patient MR4 alone and with  *)
+(* every environment collection changed - several items: reversed and the last one dropped; one Integer: a number on    *)
+(* the other side of zero; one String: a letter appended; anything else: the Integer 5; none: the Integer 1.            *)
+OtherOf(c) ==
+  IF Len(c) > 1 THEN [j \in 1..(Len(c) - 1) |-> c[Len(c) - j]]
+  ELSE IF Len(c) = 0 THEN <<I(1)>>
+  ELSE CASE c[1].t = "i" -> <<I(IF c[1].i > 0 THEN 0 - (c[1].i \div 2) - 1 ELSE 0 - (c[1].i \div 2) + 11)>>
+         [] c[1].t = "s" -> <<S(c[1].cp \o <<122>>)>>
+         [] c[1].t = "b" -> <<B(~c[1].b)>>
+         [] OTHER -> <<I(5)>>
+VarsB == [n \in DOMAIN Vars |-> OtherOf(Vars[n])]
+EnvB == [forest |-> Forest, sch |-> Sch, vars |-> VarsB, kinds |-> Kinds]
+InputB == <<RefOf(Forest, 2, <<>>)>>
+
 (****************************** constructors *******************************)
 RootE(n) == [k |-> "root", name |-> n]
 Fld(in, n) == [k |-> "field", in |-> in, name |-> n]
